@@ -1,6 +1,113 @@
-(* Props/C33.v — property theorems only. *)
-From Verif Require Import Base.Str Vars.Sparse Proofs.SparseProofs.
+(* Props/C33.v — property theorems only.  Model and Spec: Vars/Sparse.v; proofs: Proofs/SparseProofs.v.
 
+   Reading guide.  [arr] = (List, Indexes) with Indexes = None for nil;  [Inv] = the documented invariant of
+   expand.Variable.Indexes;  [abs] = the finite map an array value stands for;  [smap] with m_get/m_set/m_del/
+   m_keys/m_count/m_max/m_resolve/m_slice = the reference map with bash's rules;  [step]/[run] = the interpreter's
+   operations (a[k]=v, a[k]+=v, unset 'a[k]', a=(..), a+=(..), a=v, a+=v, unset a, ${a[k]=v}, ${a[k]:=v}) and their
+   histories;  [s_step]/[s_run] = the same on the reference map. *)
+From Verif Require Import Base.Str Vars.Sparse Proofs.SparseProofs.
+Open Scope Z_scope.
+
+(* --- the reference model is a finite map (so refinement to it means something) ------------------------- *)
 Theorem C33_spec_get_set_same : forall k v m, m_get k (m_set k v m) = Some v.
 Proof. exact m_get_set_same. Qed.
 Print Assumptions C33_spec_get_set_same.
+
+Theorem C33_spec_get_set_other : forall k k' v m, k' <> k -> m_get k' (m_set k v m) = m_get k' m.
+Proof. exact m_get_set_other. Qed.
+Print Assumptions C33_spec_get_set_other.
+
+Theorem C33_spec_get_del_same : forall k m lo, m_wf lo m -> m_get k (m_del k m) = None.
+Proof. exact m_get_del_same. Qed.
+Print Assumptions C33_spec_get_del_same.
+
+Theorem C33_spec_get_del_other : forall k k' m, k' <> k -> m_get k' (m_del k m) = m_get k' m.
+Proof. exact m_get_del_other. Qed.
+Print Assumptions C33_spec_get_del_other.
+
+Theorem C33_spec_keys_domain : forall k m, In k (m_keys m) <-> m_get k m <> None.
+Proof. exact m_keys_get. Qed.
+Print Assumptions C33_spec_keys_domain.
+
+Theorem C33_spec_extensional : forall m1 m2 lo, m_wf lo m1 -> m_wf lo m2 -> (forall k, m_get k m1 = m_get k m2) -> m1 = m2.
+Proof. exact m_ext. Qed.
+Print Assumptions C33_spec_extensional.
+
+(* --- the invariant is the documented one ------------------------------------------------------------------ *)
+Theorem C33_inv_documented : forall a, Inv a <->
+  match a_idx a with
+  | None => True
+  | Some ix => length ix = length (a_list a) /\
+               (forall i x, nth_error ix i = Some x -> 0 <= x) /\
+               (forall i j x y, (i < j)%nat -> nth_error ix i = Some x -> nth_error ix j = Some y -> x < y) /\
+               ix <> iota (length ix)
+  end.
+Proof. exact inv_documented. Qed.
+Print Assumptions C33_inv_documented.
+
+(* --- primitives: invariant preserved, refinement, no panic ------------------------------------------------ *)
+Theorem C33_set_elem : forall a k v, Inv a -> 0 <= k ->
+  exists a', set_elem a k v = Ok a' /\ Inv a' /\ abs a' = m_set k v (abs a).
+Proof. exact set_elem_ok. Qed.
+Print Assumptions C33_set_elem.
+
+Theorem C33_delete_elem : forall a k, Inv a ->
+  exists a', delete_elem a k = Ok a' /\ Inv a' /\ abs a' = m_del k (abs a).
+Proof. exact delete_elem_ok. Qed.
+Print Assumptions C33_delete_elem.
+
+Theorem C33_lookup : forall a i, Inv a -> 0 <= i -> indexed_val a i = Ok (m_get i (abs a)).
+Proof. exact indexed_val_ok. Qed.
+Print Assumptions C33_lookup.
+
+Theorem C33_keys : forall a, Inv a -> indexed_keys a = Ok (m_keys (abs a)).
+Proof. exact indexed_keys_ok. Qed.
+Print Assumptions C33_keys.
+
+Theorem C33_count : forall a, Inv a -> count a = m_count (abs a).
+Proof. exact count_ok. Qed.
+Print Assumptions C33_count.
+
+Theorem C33_values : forall a, Inv a -> a_list a = m_vals (abs a).
+Proof. exact vals_ok. Qed.
+Print Assumptions C33_values.
+
+Theorem C33_negative_index : forall a k, Inv a -> resolve_neg (a_list a) (a_idx a) k = m_resolve (abs a) k.
+Proof. exact resolve_ok. Qed.
+Print Assumptions C33_negative_index.
+
+(* --- every interpreter operation: invariant, refinement of bash's rule, same error flag, no panic -------- *)
+Theorem C33_step : forall v o, InvVar v ->
+  exists v' e, step v o = Ok (v', e) /\ InvVar v' /\ (abs_var v', e) = s_step (abs_var v) o.
+Proof. exact step_ok. Qed.
+Print Assumptions C33_step.
+
+(* --- all histories (fold_left over any list of operations, from the unset variable) ---------------------- *)
+Theorem C33_histories : forall ops, exists v, run ops = Ok v /\ InvVar v /\ abs_var v = s_run ops.
+Proof. exact run_ok. Qed.
+Print Assumptions C33_histories.
+
+Theorem C33_history_observations : forall ops, exists v, run ops = Ok v /\ agrees v (s_run ops).
+Proof. exact history_observations. Qed.
+Print Assumptions C33_history_observations.
+
+Theorem C33_no_panic : forall ops, run ops <> Panic /\ (forall c, run ops <> Err c).
+Proof. exact run_no_panic. Qed.
+Print Assumptions C33_no_panic.
+
+(* --- non-vacuity: a history that goes dense -> sparse -> dense again, with every kind of operation --------- *)
+Example C33_example_history :
+  run [OAssignArr [EVal [112%N]; EVal [113%N]; EVal [114%N]];           (* a=(p q r) *)
+       OSetElem 7 [120%N];                                            (* a[7]=x      -> sparse *)
+       OUnsetElem (-1);                                             (* unset 'a[-1]' -> dense again *)
+       OUnsetElem 1;                                                (* unset 'a[1]' -> sparse *)
+       OAppendArr [EVal [115%N]; EIdx 1 [116%N]];                       (* a+=(s [1]=t) -> dense *)
+       OAppElem (-1) [33%N]; OAppendStr [122%N]; ODefault true 9 [100%N]] (* a[-1]+=! ; a+=z ; ${a[9]:=d} *)
+  = Ok (VArr (mkArr [[112%N; 122%N]; [116%N]; [114%N]; [115%N; 33%N]; [100%N]] (Some [0; 1; 2; 3; 9]))).
+Proof. vm_compute. reflexivity. Qed.
+
+Example C33_example_inv : Inv (mkArr [[112%N]; [113%N]] (Some [2; 5])) /\ ~ Inv (mkArr [[112%N]; [113%N]] (Some [0; 1]))
+                          /\ ~ Inv (mkArr [[112%N]; [113%N]] (Some [5; 2])).
+Proof.
+  unfold Inv; simpl. repeat split; try lia; intros (H1 & H2 & H3); try discriminate; simpl in H2; lia.
+Qed.
